@@ -1363,6 +1363,7 @@ func (c *Conn) do(d *connDeadline, write func(time.Time, int32) error, read func
 	}
 
 	d.unsetConnReadDeadline()
+	verifTrace("conn.done", c, id, err)
 	lock.Unlock()
 	return err
 }
@@ -1374,6 +1375,7 @@ func (c *Conn) doRequest(d *connDeadline, write func(time.Time, int32) error) (i
 	id = c.correlationID
 	err = write(d.setConnWriteDeadline(c.conn), id)
 	d.unsetConnWriteDeadline()
+	verifTrace("conn.req", c, id, err)
 
 	if err != nil {
 		// When an error occurs there's no way to know if the connection is in a
@@ -1397,6 +1399,7 @@ func (c *Conn) waitResponse(d *connDeadline, id int32) (deadline time.Time, size
 		rsz, rid, err = c.peekResponseSizeAndID()
 
 		if err != nil {
+			verifTrace("conn.peekerr", c, id, err)
 			d.unsetConnReadDeadline()
 			c.conn.Close()
 			c.rlock.Unlock()
@@ -1404,6 +1407,7 @@ func (c *Conn) waitResponse(d *connDeadline, id int32) (deadline time.Time, size
 		}
 
 		if id == rid {
+			verifTrace("conn.take", c, id, int(rsz))
 			c.skipResponseSizeAndID()
 			size, lock = int(rsz-4), &c.rlock
 			// Don't unlock the read mutex to yield ownership to the caller.
@@ -1416,12 +1420,14 @@ func (c *Conn) waitResponse(d *connDeadline, id int32) (deadline time.Time, size
 			// one it expects. This is a sign that the data we are reading on
 			// the wire is corrupted and the connection needs to be closed.
 			err = io.ErrNoProgress
+			verifTrace("conn.noprogress", c, id, rid)
 			c.rlock.Unlock()
 			break
 		}
 
 		// Optimistically release the read lock if a response has already
 		// been received but the current operation is not the target for it.
+		verifTrace("conn.yield", c, id, rid)
 		c.rlock.Unlock()
 	}
 
